@@ -260,7 +260,7 @@ Proof.
   assert (Hc : forall p s, x_log s = x_log s2 -> ready (w_mod (x_w s) m) = [] ->
      no_run m (x_log (let '(w2, e) := catch (cfg sc m) m p (x_w s) in
                       let s2' := {| x_w := w2; x_log := x_log s |} in
-                      if e then s2' else on_w (fun w0 => set_err w0 (w_err w0 ++ join_errs (cfg sc m) m (w_mod w0 m)))
+                      if e then s2' else on_w (fun w0 => set_err w0 (w_err w0 ++ join_errs (cfg sc m) m (hnd (w_mod w0 m)) (w_fin w0)))
                                                (poll_ready (nmods sc) now m s2')))).
   { intros p s Ls Rs. unfold catch. destruct p.
     - destruct (catchf (w_mod (x_w s) m)); cbn [x_log on_w].
